@@ -73,6 +73,13 @@ func genPES(t *rapid.T, maxData int) ref.PES {
 		// elementary stream data that starts the way video access units do (start code + AVC / HEVC access unit delimiter)
 		copy(p.Data, rapid.SampledFrom([][]byte{{0, 0, 0, 1, 0x09, 0xF0}, {0, 0, 0, 1, 0x46, 0x01}, {0, 0, 1, 0x09, 0x10, 0}, {0, 0, 1, 0xB3, 0, 0}}).Draw(t, "data-start"))
 	}
+	if len(p.Data) >= 8 && rapid.IntRange(0, 5).Draw(t, "two-pes-packets") == 0 {
+		// two PES packets of one stream in the buffer: PES_packet_length says exactly where the first one ends, and the next
+		// one (same stream_id) starts right there - all of it is "the bytes that follow the header" of the first
+		k := rapid.IntRange(1, len(p.Data)-6).Draw(t, "first-packet-data")
+		copy(p.Data[k:], []byte{0, 0, 1, p.StreamID, 0, byte(len(p.Data) - k - 6)})
+		p.Length = uint16(len(p.Bytes()) - len(p.Data) - 6 + k)
+	}
 	return p
 }
 
